@@ -13,7 +13,31 @@ QUEUES_DIFF = dict(
     files={'internal/queues/zz_verif_diff_test.go': 'go/harness/queues/zz_verif_diff_test.go'},
     env={'VERIF_EPISODES': 40, 'VERIF_BIGOPS': 6000})
 
+MANAGER_DIFF = dict(
+    name='manager', pkg='./internal/helpers/', test='TestVerifManagerDiff',
+    files={'internal/helpers/zz_verif_manager_test.go': 'go/harness/helpers/zz_verif_manager_test.go'},
+    env={'VERIF_EPISODES': 300})
+
 PURE = {
+    'C15': dict(
+        module='Properties.C15', file='Properties/C15.v',
+        diffs=[MANAGER_DIFF],
+        params={},
+        footprint=['M+', 'M-', 'MRR', 'MMAX', 'MMIN', 'MLEN', 'MCNT', 'validator:'],
+        oracle_kinds=['mgr.rr', 'mgr.max', 'mgr.min', 'mgr.fair', 'mgr.len', 'mgr.unreg'],
+        rule='records = observed results of generated Register/UnregisterItem/set-length/GetRoundRobinItem/GetMaxLenItem/'
+             'GetMinLenItem/Len/Count sequences on helpers.Manager[*vItem] (0..23 items; mostly-empty, tie-heavy, all-empty, wide and '
+             'busy length profiles; occasional negative and extreme int64 lengths; double registration; unregister of absent items; '
+             'stable episodes with pinned non-empty items for long fairness windows); every selection record carries the lens vector by '
+             'position, the result as a position / E0 / E1 and roundRobinIndex after the call; each record is replayed on the extracted '
+             'Coq model (Manager.v); distinct_nontrivial = number of distinct checked record lines',
+        trusted_base=TB_COMMON + ['go/harness/helpers/zz_verif_manager_test.go (generator, recorder, white-box position lookup in m.items, Go reference oracles used only to search for failing inputs)',
+                                  'modelled, not verified: slices.MaxFunc of the Go standard library (first maximal element; modelled from its source in Manager.max_from, tied by tie-heavy MMAX records)'],
+        assumptions=['each item.Len() is constant during one selection call (the manager lock does not lock the queues; GetMaxLenItem calls Len() several times per item)',
+                     'RoundRobin fairness/no-starvation: no Register/UnregisterItem between the dispatches considered (refuted across UnregisterItem, see C15_equal_share_refuted_across_unregister; the library never calls UnregisterItem)',
+                     'MaxLen statement of the property: 0 <= Len() < 2^63 for every bound queue (C15_max_partial; refuted for negative Len)',
+                     'system level (worker calls next() then Dequeue on the chosen queue; each bound queue registered exactly once): controlled-scheduler family multiq'],
+    ),
     'C04': dict(
         module='Properties.C04', file='Properties/C04.v',
         diffs=[QUEUES_DIFF],
